@@ -131,6 +131,12 @@ class TimeSeriesMixedEdgeGraph(BaseTimeSeriesGraph, pywhy_nx.MixedEdgeGraph):
         super().remove_edge(u_of_edge, v_of_edge, edge_type)  # type: ignore
 
     def remove_edges_from(self, ebunch, edge_type="all"):
+        ebunch = list(ebunch)
+        if self.stationary:
+            # check every edge before removing the first one: a bad edge leaves the graph unchanged
+            for edge in ebunch:
+                self._check_ts_node(edge[0])
+                self._check_ts_node(edge[1])
         for edge in ebunch:
             self.remove_edge(*edge, edge_type)
 
